@@ -140,6 +140,7 @@ func c02Sig(key, name, value, ts string) string {
 }
 
 type c02Variant struct {
+	Must   bool   // must be rejected whatever it was derived from (the proxy cannot have produced it)
 	Class  string // mutation class
 	Bucket string // position bucket / sub-class
 	Note   string
